@@ -324,6 +324,16 @@ def r5_join_agree(c, facts):
                     for a in t2['args']:
                         if 'Locator' in a.get('ty', '') and 'l' in a and 2 in MF.slice_back(rs, a['l'], ridx, through_calls=False)['args']:
                             okp = True
+            for cl in facts.closures_of(rs):
+                cidx = MF.defs_index(cl)
+                for b2, t2 in cl.calls():
+                    info = callee_of(t2)
+                    if info and info['id'] == di.id:
+                        for a in t2['args']:
+                            if 'Locator' in a.get('ty', '') and 'l' in a:
+                                par, ops = MF.upvar_operands(facts, cl, MF.slice_back(cl, a['l'], cidx, through_calls=False), cidx)
+                                if par is not None and any('l' in o and 2 in (MF.slice_back(par, o['l'], MF.defs_index(par), through_calls=False)['args'] | ({2} if o['l'] == 2 else set())) for o in ops):
+                                    okp = True
             if okp:
                 c.ok(R, {'resolve': 'passes the locator of the module being resolved to declare_import'})
             else:
